@@ -4,6 +4,7 @@ import (
 	"go/ast"
 
 	"verif/internal/core"
+	"verif/internal/flow"
 )
 
 // Rules added after the second and third round of independently seeded changes (see DESIGN.md §8).
@@ -22,29 +23,26 @@ func c11SpecEquals(c *core.Ctx) {
 	cons := fname(sv, "Spec", "Equals")
 	objF := structField(c, sv, "Spec", "objectSpec")
 	var badAt ast.Node
-	ast.Inspect(f.Body, func(n ast.Node) bool {
+	usesRaw := false
+	// over Equals and the same-package helpers it calls (an extracted comparison helper, the
+	// accessors RawSpec / YAMLConfig themselves)
+	inspectReach(f, 3, func(g *flow.Func, n ast.Node) bool {
 		switch x := n.(type) {
 		case *ast.CallExpr:
-			if calleeIs(f, x, "(*"+sv+".Spec).ObjectSpec") {
+			if calleeIs(g, x, "(*"+sv+".Spec).ObjectSpec") {
 				badAt = x
+			}
+			if calleeIs(g, x, "(*"+sv+".Spec).RawSpec") || calleeIs(g, x, "(*"+sv+".Spec).YAMLConfig") {
+				usesRaw = true
 			}
 		case *ast.SelectorExpr:
-			if s := f.Info.Selections[x]; s != nil && s.Obj() == objF {
-				badAt = x
-			}
-		}
-		return true
-	})
-	usesRaw := false
-	for _, call := range calls(f.Body, false) {
-		if calleeIs(f, call, "(*"+sv+".Spec).RawSpec") || calleeIs(f, call, "(*"+sv+".Spec).YAMLConfig") {
-			usesRaw = true
-		}
-	}
-	ast.Inspect(f.Body, func(n ast.Node) bool {
-		if sel, ok := n.(*ast.SelectorExpr); ok {
-			if s := f.Info.Selections[sel]; s != nil && (s.Obj().Name() == "rawSpec" || s.Obj().Name() == "yamlConfig") {
-				usesRaw = true
+			if s := g.Info.Selections[x]; s != nil {
+				if s.Obj() == objF {
+					badAt = x
+				}
+				if s.Obj().Name() == "rawSpec" || s.Obj().Name() == "yamlConfig" {
+					usesRaw = true
+				}
 			}
 		}
 		return true
